@@ -4,7 +4,10 @@ Cases are (a) one parameter built from dict data, a sequence of update() calls a
 list of query dates, observed after construction and after every update, and (b) a
 parameter tree (nodes, leaves, scales) evaluated at a list of dates, and (c) a LIVE tree
 read at a list of dates, edited through its nodes (node.child...update(...)) and read again
-at the same dates, any number of times: an evaluation after an edit must show the edit.  The implementation
+at the same dates, any number of times: an evaluation after an edit must show the edit, and
+(d) a flat group (up to several hundred members, some undefined at the date) evaluated at a
+date and asked for vectors of member names: the answer is the members' values when every
+requested member is defined at that date, and no answer at all otherwise.  The implementation
 driver uses the real Parameter / ParameterNode / ParameterScale classes.  The oracle
 evaluates the statement of the property on the implementation's answers with datetime
 dates and naive loops: value at a date = value of the latest entry on or before it;
@@ -50,9 +53,14 @@ RULE = ("(a) histories of 0-8 dated entries (null values, 'expected' placeholder
         "every later update's span), then 1-4 rounds of [1-2 update() calls on leaves reached through the nodes "
         "(children by name, scale brackets by position and field), read again at the same dates through "
         "root(date) / root.get_at_instant(Instant)]: values and membership after an edit are compared with the model "
-        "and with the span statement.  A case is non-trivial when construction succeeds and at least one update "
+        "and with the span statement; (a') the same as (a) on LONG histories of 30-200 entries (monthly or scattered "
+        "days), queried on, just before and just after up to 35 entry dates and every update boundary; (d) flat "
+        "groups of 3-512 members (mostly 256+), ~10% of them defined only from a later date and ~10% abolished "
+        "(null) from that date, evaluated just before / on / after both dates and asked for vectors of names "
+        "(numpy arrays): all defined, one undefined member first / in the middle, a name that is no member, a "
+        "single undefined member, the whole group.  A case is non-trivial when construction succeeds and at least one update "
         "succeeds (a) or the tree has a member that is undefined at some queried date and defined at another "
-        "(b) or some read differs from the read before it (c); distinct as the whole JSON case")
+        "(b) or some read differs from the read before it (c) or some vector is answered and another refused (d); distinct as the whole JSON case")
 TRUSTED = ["ISO date strings of four-digit years are ordered like their proleptic Gregorian ordinals (the code "
            "compares strings, the model compares ordinals); re-checked on every generated pair of dates by the harness",
            "taxscales add_bracket is modelled by Param.add_bracket (sorted insertion, equal thresholds merged) and "
@@ -172,6 +180,10 @@ def coq_case(c):
     qs = clist([cz(O(q)) for q in c["queries"]])
     if c["op"] == "treeops":
         return f"(KTreeOps {ctree(c['tree'])} {clist([ctop(o) for o in c['ops']])} {qs})"
+    if c["op"] == "lookup":
+        ch = clist([f"({cstr(n)}, (TParam (yparam {clist([centry(e) for e in es])})))" for n, es in c["members"]])
+        keys = clist([clist([cstr(n) for n in key]) for key in c["keys"]])
+        return f"(KLookup {ch} {qs} {keys})"
     if c["op"] == "param":
         return (f"(KParam {cbool(c['wrapped'])} {clist([centry(e) for e in c['entries']])} "
                 f"{clist([cupd(u) for u in c['ups']])} {qs})")
@@ -336,9 +348,28 @@ def run_treeops(c):
     return out
 
 
+def run_lookup(c):
+    import numpy
+    root = ParameterNode("root", data={n: param_data(es, False) for n, es in c["members"]})
+    out = []
+    for j, q in enumerate(c["queries"]):
+        at = root(spell(q, j + len(c["keys"])))
+        row = []
+        for key in c["keys"]:
+            try:
+                r = at[numpy.array(key)]
+                row.append([v4(float(x)) for x in r])
+            except Exception as e:  # noqa: BLE001 - a refused lookup is an observation
+                row.append(Err(errkind(e), f"{type(e).__name__}: {e}"[:200]))
+        out.append(row)
+    return out
+
+
 def run_impl(c):
     if c["op"] == "treeops":
         return run_treeops(c)
+    if c["op"] == "lookup":
+        return run_lookup(c)
     if c["op"] == "param":
         p = Parameter("p", param_data(c["entries"], c["wrapped"]))
         out = [snapshot(p, c["queries"], 0)]
@@ -567,9 +598,36 @@ def oracle_treeops(c, o):
     return None
 
 
+def oracle_lookup(c, o):
+    if isinstance(o, Err):
+        return f"node: building / evaluating a well-formed group raised {o.kind} ({o.msg})"
+    for q, row in zip(c["queries"], o):
+        d = D(q)
+        val = {n: naive_value(es, d) for n, es in c["members"]}
+        for key, got in zip(c["keys"], row):
+            missing = [n for n in key if val.get(n) is None]
+            if missing:
+                if not isinstance(got, Err):
+                    return (f"lookup: the group at {q} answered {got[:8]}... (x4) for the names {key[:8]}..., but "
+                            f"{missing[:3]} {'are' if len(missing) > 1 else 'is'} not defined at that date "
+                            f"({len([n for n in val if val[n] is not None])} members are)")
+                continue
+            exp = [val[n] for n in key]
+            if isinstance(got, Err):
+                return (f"lookup: the group at {q} refused ({got.kind}: {got.msg}) the names {key[:8]}..., all "
+                        f"defined at that date")
+            if got != exp:
+                k = next(i for i, (a, b) in enumerate(zip(got, exp)) if a != b) if len(got) == len(exp) else -1
+                return (f"lookup: the group at {q} gives {got[k] if k >= 0 else got[:8]} (x4) for member "
+                        f"{key[k] if k >= 0 else key[:8]}, whose latest entry says {exp[k] if k >= 0 else exp[:8]} (x4)")
+    return None
+
+
 def oracle(c, o):
     if c["op"] == "treeops":
         return oracle_treeops(c, o)
+    if c["op"] == "lookup":
+        return oracle_lookup(c, o)
     if c["op"] == "param":
         return oracle_param(c, o)
     if isinstance(o, Err):
@@ -599,6 +657,9 @@ def nontrivial(c, o):
     if c["op"] == "treeops":
         reads = [s for s in o if isinstance(s, list)]
         return any(a != b for a, b in zip(reads, reads[1:]))
+    if c["op"] == "lookup":
+        flat = [g for row in o for g in row]
+        return any(isinstance(g, Err) for g in flat) and any(not isinstance(g, Err) for g in flat)
     return tree_flips(c["tree"], [D(q) for q in c["queries"]])
 
 
@@ -625,8 +686,13 @@ def classify(c, o):
         where = sorted({"scale" if op["path"][-1][0] == "b" else ("nested" if len(op["path"]) > 1 else "top")
                         for op in c["ops"] if op["o"] == "upd"})
         return "treeops:" + "+".join(where)
+    if c["op"] == "lookup":
+        n = len(c["members"])
+        return "lookup:" + ("<256" if n < 256 else "256+")
     if isinstance(o, Err):
         return "param:refused:" + o.kind
+    if len(c["entries"]) >= 30:
+        return "param-long:" + ("<=32" if len(c["entries"]) <= 32 else "33-64" if len(c["entries"]) <= 64 else "65+")
     if not c["ups"]:
         return "param:no-update"
     u = c["ups"][0]
@@ -951,6 +1017,105 @@ def gen_treeops_case(rng):
     return {"op": "treeops", "tree": tree, "ops": ops, "queries": qs or [base]}
 
 
+def gen_long_param_case(rng):
+    """A long history (around and well above 32 entries), monthly or on scattered days, then a few updates."""
+    n = rng.choice([30, 31, 32, 33, 33, 34, 35, 40, 48, 63, 64, 65, 66, 80, 100, 127, 128, 129, 150, 200])
+    base = rng.choice(["1990-01-01", "2000-01-01", "2005-07-01", "1000-02-01", "2012-03-15"])
+    lo = O(base)
+    if rng.random() < 0.5:
+        b = D(base)
+        pool = [addm(datetime.date(b.year, b.month, 1), k).toordinal() for k in range(n + 12)]   # one entry per month
+    else:
+        pool = list(range(lo, lo + 4 * n))
+    ords = sorted(rng.sample(pool, n))
+    entries = gen_entries(rng, ords, allow_invalid=False)
+    for e in entries:                                   # few placeholders, so that the length stays what was drawn
+        if e["k"] in EXPECTED_KINDS and rng.random() < 0.8:
+            e["k"], e["v"] = "value", rng.choice(VALUES)
+    dates = [O(e["d"]) for e in entries if e["k"] in VALID_KINDS]
+    lo, hi = pool[0], pool[-1] + 1
+    ups = []
+    ubounds = []
+    for _ in range(rng.choice([0, 1, 1, 2, 2, 3])):
+        near = rng.sample(dates, min(len(dates), 6)) if rng.random() < 0.6 else dates   # short spans as well as long
+        u = gen_update(rng, sorted(near), lo - 3, hi + 3, "days", ill=False)
+        ups.append(u)
+        ubounds += boundaries(u)
+    sample = rng.sample(dates, min(len(dates), 35))
+    points = set(sample) | set(ubounds) | {min(dates), max(dates)}
+    return {"op": "param", "wrapped": rng.random() < 0.5, "entries": entries, "ups": ups,
+            "queries": queries_for(points, rng, far=False)}
+
+
+def gen_lookup_case(rng):
+    """A flat group of numbers, some members undefined before / after a date, and vectors of names."""
+    n = rng.choice([3, 8, 20, 60, 255, 256, 257, 284, 290, 300, 320, 320, 400, 400, 512])
+    d0 = O(rng.choice(BASES[:7]))
+    d1 = d0 + rng.choice([1, 2, 30, 200])
+    style = rng.choice(["padded", "padded", "words"])
+    names = set()
+    while len(names) < n:
+        if style == "padded":
+            names.add(f"z{rng.randrange(0, 100000):05d}")
+        else:
+            names.add(rng.choice(["zone", "city", "m", "rate", "k"]) + "_" +
+                      "".join(rng.choice("abcdefghijklmnopqrstuvwxyz0123456789") for _ in range(rng.choice([2, 3, 5]))))
+    names = sorted(names)
+    rng.shuffle(names)
+    vals = [v for v in VALUES if v is not None]
+    members, always, later, gone = [], [], [], []
+    for nm in names:
+        r = rng.random()
+        if r < 0.10:
+            es = [{"d": iso(d1), "k": rng.choice(["value", "bare"]), "v": rng.choice(vals)}]
+            later.append(nm)
+        elif r < 0.20:
+            es = [{"d": iso(d0), "k": "value", "v": rng.choice(vals)}, {"d": iso(d1), "k": rng.choice(["value", "bare"]), "v": None}]
+            gone.append(nm)
+        else:
+            es = [{"d": iso(d0), "k": rng.choice(["value", "bare"]), "v": rng.choice(vals)}]
+            if rng.random() < 0.3:
+                es.append({"d": iso(d1), "k": "value", "v": rng.choice(vals)})
+            always.append(nm)
+        rng.shuffle(es)
+        members.append([nm, es])
+    if not always:
+        members[0][1] = [{"d": iso(d0), "k": "value", "v": 1}]
+        always = [members[0][0]]
+        later = [x for x in later if x != always[0]]
+        gone = [x for x in gone if x != always[0]]
+
+    def some(k):
+        return [rng.choice(always) for _ in range(k)]
+
+    def stranger():
+        x = rng.choice(names)
+        cand = rng.choice([x + "a", x[:-1], "a", "zzzzzzzz", x.upper()])
+        return cand if cand not in names and cand else "no_such_member"
+
+    sometimes = later + gone
+    keys = [some(rng.choice([1, 5, 20, 40]))]
+    if sometimes:
+        k = some(rng.choice([2, 6, 15]))
+        k.insert(rng.randrange(1, len(k) + 1), rng.choice(sometimes))
+        keys.append(k)                                              # an undefined member, not first
+        keys.append([rng.choice(sometimes)] + some(rng.choice([0, 3])))   # ... first
+        keys.append([rng.choice(sometimes)])
+    k = some(rng.choice([2, 6]))
+    k.insert(rng.randrange(1, len(k) + 1), stranger())
+    keys.append(k)                                                  # a name that is no member at all
+    if rng.random() < 0.3:
+        keys.append([stranger()] + some(2))
+    if rng.random() < 0.5:
+        keys.append(sorted(always))                                 # every permanent member
+    if later and rng.random() < 0.5:
+        keys.append(sorted(always + later))                         # defined from d1 on only
+    rng.shuffle(keys)
+    qpool = [d0, d1 - 1, d1, d1 + 5, d0 + 1] + ([d0 - 1] if rng.random() < 0.15 else [])
+    qs = sorted({iso(x) for x in rng.sample(qpool, 3)})
+    return {"op": "lookup", "members": members, "queries": qs, "keys": keys}
+
+
 def check_date_order(cases):
     """The trusted-base line about ISO strings, re-checked on the dates of this run."""
     ds = set()
@@ -971,6 +1136,10 @@ def generate(rng, tier):
     cases += [gen_tree_case(rng) for _ in range(n_tree)]
     n_ops = {"quick": 500, "escalated": 1500, "thorough": 10000}[tier]
     cases += [gen_treeops_case(rng) for _ in range(n_ops)]
+    n_long = {"quick": 60, "escalated": 200, "thorough": 1000}[tier]
+    n_look = {"quick": 40, "escalated": 120, "thorough": 500}[tier]
+    cases += [gen_long_param_case(rng) for _ in range(n_long)]
+    cases += [gen_lookup_case(rng) for _ in range(n_look)]
     check_date_order(cases)
     return cases
 
@@ -989,6 +1158,9 @@ def with_queries(c):
 
 
 def neighbours(c, rng):
+    if c["op"] == "lookup":
+        return ([dict(c, keys=[k], queries=[q]) for k in c["keys"] for q in c["queries"]][:12] +
+                [gen_lookup_case(rng) for _ in range(6)])
     if c["op"] == "treeops":
         out = []
         upds = [op for op in c["ops"] if op["o"] == "upd"]
@@ -1033,9 +1205,32 @@ def shrink_treeops(c, still_fails):
     return cur
 
 
+def shrink_lookup(c, still_fails):
+    cur = c
+    for k in c["keys"]:
+        for q in c["queries"]:
+            cand = dict(c, keys=[k], queries=[q])
+            if still_fails(cand):
+                cur = cand
+                break
+        if cur is not c:
+            break
+    key = cur["keys"][0] if len(cur["keys"]) == 1 else None
+    i = 0
+    while key is not None and len(key) > 1 and i < len(key):
+        cand = dict(cur, keys=[key[:i] + key[i + 1:]])
+        if still_fails(cand):
+            cur, key = cand, cand["keys"][0]
+        else:
+            i += 1
+    return cur
+
+
 def shrink(c, still_fails):
     if c["op"] == "treeops":
         return shrink_treeops(c, still_fails)
+    if c["op"] == "lookup":
+        return shrink_lookup(c, still_fails)
     if c["op"] != "param":
         return None
     cur = c
